@@ -231,6 +231,48 @@ def check_request(ctx, S, DEF, system, g, a, hist):
     return after_sys
 
 
+def check_unknown(ctx, S, DEF, system, rng, g, sa, hist):
+    """an unknown command code (5 bytes: SOH, slave, master, code, id): one short "unknown command" answer
+    per addressed board that exists, none for an absent address or a silent broadcast, no effect at all"""
+    accepted = set(ord(c) for c in DEF.ACCEPTED_COMMANDS)
+    code = rng.choice([c for c in range(256) if c not in accepted])
+    ma, cid = g.byte(), g.byte()
+    m = [ord(DEF.CMD_SOH), sa, ma, code, cid]
+
+    def bad(klass, what, **w):
+        ctx.fail(klass, what, dict(w, config=hist['config'], history=[list(x) for x in hist['stream']],
+                                   request=dict(kind='UNKNOWN', sa=sa, ma=ma, cid=cid, code=code), request_bytes=m))
+    keys = [H.one(k) for k in system.slaves]
+    before = regs(S, system)
+    after_sys, (tag, reply), framed = run_req(system, m)
+    if tag == 3:
+        bad('exception', 'an exception escaped parse (the request is swallowed by the server)')
+        return after_sys
+    if regs(S, after_sys) != before:
+        bad('unknown_command_effect', 'a request with an unknown command code changed a board')
+    bro = [ord(c) for c in DEF.SLAVE_ADDR_BROADCAST]
+    if sa == ord(DEF.SLAVE_ADDR_BROADCAST_WITH_ANSWER):
+        who = keys
+    elif sa in bro or sa not in keys:
+        who = []
+    else:
+        who = [sa]
+    want = []
+    for k in who:
+        want += [ord(DEF.CMD_STX), ma, k, code, cid, ord(DEF.CMD_ERR_CMD)]
+    got = list(reply) if tag == 2 else []
+    if got != want:
+        if sa not in bro and sa not in keys:
+            bad('absent', 'a request to an absent address was answered or had an effect', outcome=tag, reply=got)
+        elif sa in bro and not who:
+            bad('broadcast_silent', 'a broadcast-without-answer was answered', outcome=tag, reply=got)
+        else:
+            bad('unknown_command_answer', 'an unknown command code is not answered by exactly the addressed '
+                'boards with the short "unknown command" frame', reply=got, expected=want)
+    hist['stream'].append(m)
+    return after_sys
+
+
 def oracle(ctx):
     from simulators.receiver import DEFINITIONS as DEF
     rng = ctx.rng
@@ -253,6 +295,10 @@ def oracle(ctx):
             hist['stream'].append(H.build(DEF, a['kind'], a['ext'], a['sa'], a['ma'], a['cid'], a['p'],
                                           good=a['good'], eot=a['eot'], filler=a['filler']))
             checked += 1
+            if rng.random() < 0.25:
+                keys = [H.one(k) for k in system.slaves]
+                system = check_unknown(ctx, S, DEF, system, rng, g, g.address(keys), hist)
+                checked += 1
             if len(ctx.failures) > 20:
                 break
     # a frame whose handler raises (virtual clock), then ordinary requests: answered once as addressed
